@@ -158,6 +158,35 @@ func runCheck(p *vc.Program, prop, tier string) int {
 	all = append(all, lemmaObs...)
 	genS := time.Since(t0).Seconds()
 	results := solveAll(all, dir, tmo, seed)
+	// second chance for obligations that came back "unknown": re-run them a few at
+	// a time, with three times the budget and the default seed, so that
+	// machine load or an unlucky seed does not turn into an alarm
+	{
+		var idx []int
+		for i, r := range results {
+			if !r.Ob.Cover && r.Ans.Status == solve.Unknown {
+				idx = append(idx, i)
+			}
+		}
+		if len(idx) > 0 && len(idx) <= 40 {
+			saved := *jobs
+			*jobs = 3
+			var obs []*vc.Obligation
+			for _, i := range idx {
+				obs = append(obs, results[i].Ob)
+			}
+			again := solveAll(obs, dir, 3*tmo, 0)
+			*jobs = saved
+			for k, i := range idx {
+				if again[k].Ans.Status != solve.Unknown {
+					again[k].Ans.Detail = results[i].Ans.Detail + " | retry: " + again[k].Ans.Detail
+					results[i] = again[k]
+				} else {
+					results[i].Ans.Detail += " | retry: " + again[k].Ans.Detail
+				}
+			}
+		}
+	}
 
 	// classify
 	var violations []string
